@@ -78,7 +78,7 @@ def main():
         for i in range(n):
             if i >= n:
                 break
-            if time.time() > t_end and rec['cases'] >= 20:
+            if time.time() > t_end and rec['cases'] >= 40:
                 break
             try:
                 g = Gen(seed * 1000003 + i)
